@@ -80,6 +80,17 @@ def handleGraph : Sexp → Option Sexp
     some (pyResult (fun (r : Prog × List Expr × List Expr) =>
       .list [.atom "res", r.1.toSexp, .list (r.2.1.map Expr.toSexp ++ r.2.2.map Expr.toSexp)])
       (connectedCrossable f sc pr (Frame.numVars H W)))
+  | .list [.atom "vgborders_frame", h, w, gs, prim] => do
+    -- division_connected_variable_groups_with_borders(group_size=IntArray2D, is_border=BoolInnerGridFrame): the caller's
+    -- h*w size variables come first, then the inner frame's variables, then the auxiliaries
+    let H ← h.toNat?; let W ← w.toNat?; let pr ← prim.toBool?
+    let gsl ← optExprs? gs
+    let inner := InnerFrame.fresh (H * W) H W
+    let base := H * W + (H - 1) * W + H * (W - 1)
+    let r : Py Prog := do
+      let (es, g) ← fromGridFrame inner.dual
+      variableGroupsWithBorders g gsl es pr base
+    some (pyResult Prog.toSexp r)
   | .list [.atom "grid", h, w] => do
     let g := Graph.grid (← h.toNat?) (← w.toNat?)
     some (.list [.ofNat g.n, edgesS g.edges])
